@@ -56,12 +56,17 @@ def kitchen():
     for i, f in enumerate(files):
         E.append(('f', f, 'M%dZ' % i))
     E.append(('f', 'base/empty.tex', ''))
+    # files that themselves contain \input (nested lookups are made against the configured directory as well)
+    E.append(('f', 'base/n1.tex', 'N1\\input{s}N1'))
+    E.append(('f', 'base/n2.tex', 'N2\\input{t.latex}\\input{../out/s}N2'))
+    E.append(('f', 'base/sub/n3.tex', 'N3\\input{s}\\input{a}N3'))
     links = [('base/li.tex', 'a.tex'), ('base/lo.tex', '../out/s.tex'), ('base/lo2', '../out/s.tex'),
              ('base/la.tex', '{R}/out/s.tex'), ('base/sub/up', '..'), ('base/dout', '../out'), ('base/dsib', '../base2'),
              ('base/dang.tex', 'nowhere'), ('base/loop', 'loop'), ('base/lolat.latex', '../base2/s.tex'),
              ('base/lchain.tex', 'li.tex'), ('base/lchain2.tex', 'lo.tex'), ('base/lt', '../out/t'),
              ('out/in', '../base'), ('out/ia.tex', '../base/a.tex'), ('blink', 'base'), ('base2/in', '../base'),
              ('base/sub/ls.tex', '../../base2/s.tex'),
+             ('out/back.tex', '../base/n1.tex'), ('out/back2.tex', '../base/n2.tex'), ('base2/back3.tex', '../base/sub/n3.tex'),
              # targets that pass through a link loop and '..': realpath() gives up and abspath() cancels 'loop/..'
              ('base/lx.tex', 'loop/../ly'), ('base/ly', '../out/s.tex'),
              ('base/lx2.tex', 'loop/../ly2'), ('base/ly2', 'loop/../lz'), ('base/lz', '../out/s.tex'),
@@ -73,8 +78,8 @@ def kitchen():
 K_COMPONENTS = ['..', '.', 'sub', 'a', 'a.tex', 'b', 'c', 'e', 'q', 'q.tex', 's', 's.tex', 't', 'base', 'base2', 'base.tex',
                 'out', 'lo', 'lo.tex', 'lo2', 'la', 'li', 'up', 'dout', 'dsib', 'in', 'ia', 'dang', 'loop', 'x', 'x.tex',
                 'lolat', 'lchain', 'lchain2', 'lt', 'deep', 'u', 'd', 'd.tex', 'empty', 'blink', 'ls', 'nonex',
-                'lx', 'lx.tex', 'lx2', 'ly', 'ly2', 'lz', 'lxi', 'lxa']
-K_SMALL = ['..', '.', 'sub', 'a', 's', 's.tex', 'base', 'base2', 'out', 'lo', 'up', 'dout', 'dsib', 'in', 'blink', 'lt', 't', 'ls', 'loop', 'ly', 'lx2']
+                'lx', 'lx.tex', 'lx2', 'ly', 'ly2', 'lz', 'lxi', 'lxa', 'n1', 'n2', 'n3', 'back', 'back2', 'back3']
+K_SMALL = ['n1', 'back', 'back2', 'back3', '..', '.', 'sub', 'a', 's', 's.tex', 'base', 'base2', 'out', 'lo', 'up', 'dout', 'dsib', 'in', 'blink', 'lt', 't', 'ls', 'loop', 'ly', 'lx2']
 K_DIRS = ['base', 'base/', 'blink', 'base/sub/..', 'base/sub', 'out/in', 'base2', 'out/base', 'out']
 ABS_NAMES = ['{R}/base/a.tex', '{R}/base/a', '{R}/base2/s.tex', '{R}/base2/s', '{R}/out/s', '{R}/base/lo', '{R}/base.tex',
              '{R}/base', '{R}/blink/a', '{R}/out/in/a', '{R}/base/../base2/s.tex', '{R}/base/./a', '/', '',
@@ -555,7 +560,7 @@ def _run(c, top, root, h, LatexNodes2Text):
                             'detail': 'strict mode, directory %r: latex_to_text(\\%s{%s}) = %r contains the content of %r'
                                       % (c['dir'], c['mac'], c['name'], text[:40], path)}
                     break
-        if fail is None and expected is not None and expected not in text:
+        if fail is None and expected is not None and '\\input' not in expected and expected not in text:
             fail = {'kind': 'l2t-inside-not-read',
                     'detail': 'directory %r: latex_to_text(\\%s{%s}) = %r lacks %r' % (c['dir'], c['mac'], c['name'], text[:40], expected[:40])}
 
